@@ -187,6 +187,35 @@ def mirrored(case):
     return out
 
 
+class _Boom(RuntimeError):
+    """raised on purpose by a harness callback"""
+
+
+def abort_a_fit(state, data, bases=None, hook="on_batch_end", touch_normalization=False, space=None, **fit_kw):
+    """A training run that a USER callback aborts with an exception (hook in on_train_start / on_epoch_start / on_batch_end / on_epoch_end),
+    caught here as a caller would.  Nothing a failed call leaves behind may affect later, correct use of the same objects."""
+    from qucumber.callbacks import LambdaCallback
+
+    def _raise():
+        raise _Boom("user callback failed")
+    boom = {"on_train_start": lambda s_: _raise(), "on_train_end": lambda s_: _raise(), "on_epoch_start": lambda s_, e_: _raise(),
+            "on_epoch_end": lambda s_, e_: _raise(), "on_batch_start": lambda s_, e_, b_: _raise(), "on_batch_end": lambda s_, e_, b_: _raise()}[hook]
+    cbs = []
+    if touch_normalization:
+        sp = space if space is not None else state.generate_hilbert_space()     # the caller's own space object, if given
+        cbs.append(LambdaCallback(on_epoch_end=lambda s_, e_: s_.normalization(sp), on_batch_end=lambda s_, e_, b_: s_.normalization(sp)))
+    cbs.append(LambdaCallback(**{hook: boom}))
+    kw = dict(epochs=2, pos_batch_size=2, lr=0.01, k=1, callbacks=cbs)
+    kw.update(fit_kw)
+    if bases is not None:
+        kw["input_bases"] = bases
+    try:
+        state.fit(data, **kw)
+    except _Boom:
+        pass
+    state.stop_training = False
+
+
 def reinit_and_set(state, case):
     """lifecycle step used by histories: reinitialise (the networks get NEW parameter objects), then write the case's parameters again"""
     state.reinitialize_parameters()
